@@ -392,8 +392,24 @@ def F_C04_2():
     return sorted(i.k for i in h.items) != before
 
 
+def F_C01_2():
+    "C01: transform_<attr>(f, k=g) on a missing attribute applies g to f's result in place"
+    @spec_class
+    class N:
+        v: int = 0
+
+    @spec_class
+    class M:
+        n: N
+        other: N = None
+
+    m = M(other=N())
+    m.transform_n(lambda fresh: m.other, v=lambda v: 99)
+    return m.other.v != 0
+
+
 ALL = [D1, D2, D3, D4, D5, D6, D7, D8, D9, D10, D11, D12, D13, D14, D15,
-       F_C01_1, F_C02_1, F_C04_1, F_C13_1, F_C07_1, F_C07_2, F_C07_3, F_C04_2]
+       F_C01_1, F_C02_1, F_C04_1, F_C13_1, F_C07_1, F_C07_2, F_C07_3, F_C04_2, F_C01_2]
 
 if __name__ == "__main__":
     want = set(sys.argv[1:])
